@@ -54,6 +54,10 @@ CLAIMED = {
          "Decides the state discipline the time rules rest on: only the UTC field 253 and the compressed branch re-base the reference, each re-base updates the 5-bit offset with it, the update has the rollover form, invalid values are skipped, and the epoch/zone conversions have the documented shapes. Sequence arithmetic over long runs is a consequence of the recognised formula and is not computed.",
          "Trusted: time package semantics; recognised normal form of the compressed update (an equivalent rewrite is reported as undecided, not accepted silently). Not decided: computed values over sequences.",
          "DESIGN.md 4 C12"),
+ "C18": ("other", "sibling-arm rule over the 17 routers, bit-slice lint over all expandComponents bodies (syntax + types), accumulator construction/scope rules (SSA)",
+         "Decides that expansion is invoked wherever a named component-bearing message is stored, that every recognised bit slice is well-formed, guarded by the source's invalid value and contiguous, and the accumulator discipline. Known findings (generator-rooted): package-level never-reset accumulators, two zero-mask accumulators, one narrow shift. The component layout against the SDK and the sums over streams are not decided.",
+         "Trusted: Go shift/conversion semantics; C15-4 constructor values. Not decided: layout against the 21.115 profile (workbook absent), computed sums.",
+         "DESIGN.md 4 C18"),
 }
 
 NOT_APPLICABLE = {
